@@ -129,6 +129,34 @@ def discharge(P, f, kind, bb):
             for (a, b) in ((m["a"], m["b"]), (m["b"], m["a"])):
                 if b["k"] == "const" and b.get("bits") == "1" and b["ty"]["s"] in ("usize", "u64") and a["k"] in ("copy", "move"):
                     return "D4 counter + 1 on %s (needs 2^64 steps)" % b["ty"]["s"]
+        # D7: x - c where x runs over `s..` with a constant start s >= c (a for-range element or a
+        # counter that starts at s and is only ever incremented)
+        if m["op"] == "Sub" and m["b"]["k"] == "const" and m["b"].get("bits") is not None and m["a"]["k"] in ("copy", "move"):
+            cval = int(m["b"]["bits"])
+            ao = f.origins_of_operand(m["a"])
+            good = bool(ao)
+            for o in ao:
+                ok1 = False
+                # element of Range { start: const >= c, .. }
+                if o[0][0] == "agg" and o[0][4].endswith("Range::Range") and any(st[0] == "next" for st in o[1:]):
+                    rv = f.blocks[o[0][2]]["stmts"][o[0][3]]["rv"]
+                    st0 = rv["ops"][0]
+                    if st0["k"] == "const" and st0.get("bits") is not None and int(st0["bits"]) >= cval:
+                        ok1 = True
+                if o[0][0] == "const" and len(o) == 1:
+                    try:
+                        ok1 = int(str(o[0][1]).split("_")[0]) >= cval
+                    except ValueError:
+                        ok1 = False
+                if o[0][0] == "binop" and o[0][4] in ("AddWithOverflow", "Add"):
+                    st = f.blocks[o[0][2]]["stmts"][o[0][3]]["rv"]
+                    # counter + positive constant: stays >= its start (its other origins are checked too)
+                    if st["b"]["k"] == "const" and f.origins_of_operand(st["a"]) == ao:
+                        ok1 = True
+                if not ok1:
+                    good = False
+            if good:
+                return "D7 minuend runs upward from a constant start >= %d" % cval
         # D5: arithmetic on a character inside a per-character classifier, evaluated over
         # intervals of code points (rules/charclass.py): the assert holds for every code point
         from charclass import asserts_proved_safe
@@ -139,7 +167,60 @@ def discharge(P, f, kind, bb):
         d6 = _leading_ascii_prefix_slice(P, f, bb)
         if d6:
             return d6
+        d8 = _vec_index_below_len(P, f, bb)
+        if d8:
+            return d8
     return None
+
+
+def _vec_index_below_len(P, f, bb):
+    """D8: `v[i]` / `v[i - c]` (through Index::index) where a dominating edge says `i < v.len()`
+    for the same v and i is not written between that test and the use."""
+    c = f.call_at[bb]
+    if len(c.args) != 2 or c.args[1]["k"] not in ("copy", "move"):
+        return None
+    if f.local_ty(c.args[1]["place"]["local"])["s"] != "usize":
+        return None
+    coll = f.vars_of_operand(c.args[0])
+    if not coll:
+        return None
+    io = f.origins_of_operand(c.args[1])
+    iv = f.vars_of_operand(c.args[1])
+    base_vars = None
+    if iv and all(o[0][0] == "var" and len(o) == 1 for o in iv):
+        base_vars = iv
+    else:
+        # i - c
+        for o in io:
+            if o[0][0] == "binop" and o[0][4] in ("SubWithOverflow", "Sub"):
+                st = f.blocks[o[0][2]]["stmts"][o[0][3]]["rv"]
+                if st["b"]["k"] == "const":
+                    bv = f.vars_of_operand(st["a"])
+                    if bv and all(x[0][0] == "var" and len(x) == 1 for x in bv):
+                        base_vars = bv if base_vars in (None, bv) else False
+                        continue
+            base_vars = False
+    if not base_vars:
+        return None
+
+    def lt_len(d):
+        if d["op"] != "Lt" or f.vars_of_operand(d["a"]) != base_vars:
+            return False
+        bo = f.origins_of_operand(d["b"])
+        return bool(bo) and all(o[0][0] == "call" and o[0][3].split("::")[-1] == "len" and len(o) == 1 and
+                                f.vars_of_operand(f.call_at[o[0][2]].args[0]) == coll for o in bo)
+    edges = f.cmp_edges(lt_len, True)
+    if not edges or not f.dominated_by_edges(bb, edges):
+        return None
+    var_locals = {o[0][1] for o in base_vars}
+    W = {wbb for l in var_locals for (kind, wbb, idx, place, payload) in f.defs.get(l, ()) if not place["proj"]}
+    if bb in W:
+        return None
+    targets = [b for (a, b) in edges]
+    for w in W:
+        if w in f.reach(targets, avoid_blocks=[bb]) and bb in f.reach_after(w, avoid_edges=edges):
+            return None
+    return "D8 index (minus a constant) below len() of the same vector on a dominating edge"
 
 
 def _leading_ascii_prefix_slice(P, f, bb):
